@@ -44,9 +44,14 @@ impl FrameSt {
 pub struct State {
     pub frames: Vec<FrameSt>,
     pub atoms: Vec<(i128, i128)>,
+    /// number of generator requests made on this path (u32::MAX = paths with different counts merged)
+    pub rng_count: u32,
 }
 
 impl State {
+    pub fn empty() -> State {
+        State { frames: Vec::new(), atoms: Vec::new(), rng_count: 0 }
+    }
     pub fn join(&self, o: &State) -> State {
         let mut frames = Vec::with_capacity(self.frames.len());
         for (a, b) in self.frames.iter().zip(o.frames.iter()) {
@@ -65,7 +70,7 @@ impl State {
         }
         let n = self.atoms.len().min(o.atoms.len());
         let atoms = (0..n).map(|i| (self.atoms[i].0.min(o.atoms[i].0), self.atoms[i].1.max(o.atoms[i].1))).collect();
-        State { frames, atoms }
+        State { frames, atoms, rng_count: if self.rng_count == o.rng_count { self.rng_count } else { u32::MAX } }
     }
 
     pub fn widen(&self, new: &State) -> State {
@@ -83,6 +88,9 @@ impl State {
     }
 
     pub fn leq(&self, o: &State) -> bool {
+        if self.rng_count != o.rng_count && o.rng_count != u32::MAX {
+            return false;
+        }
         for (a, b) in self.frames.iter().zip(o.frames.iter()) {
             for i in 0..a.locals.len() {
                 if !a.locals[i].leq(&b.locals[i]) {
